@@ -15,6 +15,8 @@ ENGINES = [
      "kind_free_text": "generated event histories executed on the real scheduler.Cell under a virtual clock; reference-model oracles after every cycle; forked probe cycles"},
     {"name": "master-zk", "path": "vf/master", "serves_properties": ["C01", "C03", "C04", "C05", "C06", "C07", "C08", "C09", "C10", "C11"],
      "kind_free_text": "real Master/Loader on ZkBackend on an in-memory ZooKeeper (vf/zkfake.py); events produced with masterapi; fork-based crash cuts and restarts"},
+    {"name": "trace-archive", "path": "vf/checks/c18.py", "serves_properties": ["C18"],
+     "kind_free_text": "real trace archiver on the in-memory ZooKeeper, crash switch at every write, sqlite snapshots opened by the oracle"},
     {"name": "codecs", "path": "vf/checks/c15.py", "serves_properties": ["C15"],
      "kind_free_text": "round-trip / injectivity monitors on the real encoders and decoders over generated domains"},
     {"name": "appmonitor-loop", "path": "vf/checks/c20.py", "serves_properties": ["C20"],
@@ -72,4 +74,8 @@ CHECKS['C15'] = dict(engine='codecs', category='exploration', design_ref='DESIGN
                      note="Trusted base: the harness' own field-wise comparison and canonical forms; in-memory ZooKeeper and LDAP directory for the storage-backed paths; os.stat patched for gen_uniqueid only. Field alphabets follow etc/schema; the node-name separator ',' is outside every field.",
                      text="Tens of thousands of generated rules, instance/unique names, trace events, ZooKeeper payloads and LDAP objects per run are pushed through the real codec pairs (also through RuleMgr on disk, trace.post_zk -> AppTraceLoop, zkutils, admin create/get/update) and compared field-wise; a run-wide registry and single-field mutation pairs look for collisions.",
                      technique="runtime monitoring: round-trip postconditions on the real codecs + injectivity registry over generated inputs")
+CHECKS['C18'] = dict(engine='trace-archive', category='fault_enumeration', design_ref='DESIGN 5 C18',
+                     note="Trusted base: in-memory ZooKeeper fake with crash switch and write log; snapshots are decompressed and opened with sqlite by the harness; virtual clock; node mtimes set by the harness.",
+                     text="Every ZooKeeper write of a full archiving run (cleanup_trace, cleanup_finished, cleanup_server_trace, cleanup_*_history) over generated populations is a crash point: at each cut every previously live event/record is still live or a row of a snapshot, young/scheduled ones are live, pruning removed only the oldest snapshots.",
+                     technique="runtime monitoring with fault injection: crash at every storage write, conservation oracle over live nodes + opened sqlite snapshots")
 NOT_APPLICABLE = {}
